@@ -96,3 +96,13 @@ var _ = pr.AutoF
 //@   props C09 C13
 //@   modifies anything
 //@   assert after newGridX#1: forall(i, gridX, newGridX, !occupiedCellsInThisRow[i])
+
+// geometry readers used while collecting links (frame only)
+//@ func HitArea
+//@   props C14
+//@   modifies nothing
+//@   trusted "frame only: reads the box geometry"
+//@ func (*BoxFields).IsAttachment
+//@   props C14
+//@   modifies nothing
+//@   trusted "frame only: reads the element's rel attribute"
